@@ -15,6 +15,7 @@
 #include "alg-des.h"
 #include "alg-yescrypt.h"
 #include "alg-gost3411-2012-hmac.h"
+#include <errno.h>
 #include "vf.h"
 
 #define RD(p, n) __CPROVER_assert((n) == 0 || __CPROVER_r_ok((p), (n)), "C04: kernel input readable for its whole length")
@@ -78,12 +79,15 @@ int yescrypt_kdf(const yescrypt_shared_t *shared, yescrypt_local_t *local,
   WR(local, sizeof *local); RD(passwd, passwdlen); RD(salt, saltlen); RD(params, sizeof *params);
   WR(buf, buflen);
   vf_kdf_calls++;
-  if (nondet_bool()) return -1;
+#ifndef KDF_NO_FAIL
+  /* resource failure inside the KDF (its mappings); not in the C10 composition, whose subject is the setting */
+  if (nondet_bool()) { errno = nondet_bool() ? ENOMEM : EINVAL; return -1; }
+#endif
   havoc_bytes(buf, buflen);
   return 0;
 }
 int yescrypt_init_local(yescrypt_local_t *local)
-{ WR(local, sizeof *local); local->base = local->aligned = 0; local->base_size = local->aligned_size = 0; return nondet_bool() ? -1 : 0; }
+{ WR(local, sizeof *local); local->base = local->aligned = 0; local->base_size = local->aligned_size = 0; return 0; /* the real one only zeroes the region */ }
 int yescrypt_free_local(yescrypt_local_t *local)
 { WR(local, sizeof *local); local->base = local->aligned = 0; local->base_size = local->aligned_size = 0; return 0; }
 #endif
